@@ -25,11 +25,13 @@ EXPLANATION = (
     "statistic on the own chain/subset/label vectors projected onto cycles, NaN recoded to -1 before a cast; "
     "add_cycle_metric stores the values as given or recoded/cast as requested; chain_ind is 0..max projected with the "
     "vectors just stored. R10: every attribute a container method reads is bound on every constructor path and "
-    "before the constructor's own method calls that need it. "
+    "before the constructor's own method calls that need it. R11: the tabular export is built from the metric store "
+    "and drops exactly the rows whose cycle does not match the conditions in force (explicit ones, or the stored ones "
+    "with subset=True). "
     "Not decided: equality of arbitrary user functions under cache on/off; the history "
     "quantifier beyond 'each operation preserves R4'.")
 RULE_TEXT = "one obligation per operator x literal prefix, per counter clause, per metric store, per cache clause"
-FLOORS = {'C15.R1': 30, 'C15.R2': 2, 'C15.R3': 4, 'C15.R4': 2, 'C15.R5': 3, 'C15.R6': 1, 'C15.R7': 1, 'C15.R8': 2, 'C15.R9': 5, 'C15.R10': 1}
+FLOORS = {'C15.R1': 30, 'C15.R2': 2, 'C15.R3': 4, 'C15.R4': 2, 'C15.R5': 3, 'C15.R6': 1, 'C15.R7': 1, 'C15.R8': 2, 'C15.R9': 5, 'C15.R10': 1, 'C15.R11': 1}
 PINNED_EXPECT = [('C15.R5', 'emd.cycles.get_cycle_vector', 'last boundary'),
                  ('C15.R7', 'emd._cycles_support.map_cycle_to_samples_augmented', 'augmented extent'),
                  ('C15.R8', 'emd._cycles_support.get_augmented_cycle_stat_from_samples', 'possibly-None'),
@@ -51,6 +53,7 @@ def run(ctx):
     ctx.rule(rule_dispatch, 'C15.R9')
     ctx.rule(rule_chain_position, 'C15.R9')
     ctx.rule(rule_initialised, 'C15.R10')
+    ctx.rule(rule_dataframe, 'C15.R11')
 
 
 # ----------------------------------------------------------------------------------------------
@@ -1294,3 +1297,84 @@ def rule_chain_position(ctx, rid):
         ctx.violation(rid, fi, c, bad[1], node=bad[0].node, path=trace_tail(bad[0].state, 6))
     else:
         ctx.passed(rid, fi, c, '%d path(s)' % len(exits))
+
+
+# ----------------------------------------------------------------------------------------------
+# C15.R11: the tabular export agrees with the metrics and with the selection
+def rule_dataframe(ctx, rid):
+    """get_metric_dataframe: the table is built from the metric store; with subset=True the rows kept are the cycles
+    matching the stored conditions, with explicit conditions the cycles matching those; rows are removed exactly
+    where the match vector is false."""
+    P = ctx.P
+    fi = P.func('emd.cycles.Cycles.get_metric_dataframe')
+    exits = Evaluator(P).run(fi)
+    ctx.paths += len(exits)
+    c = 'the exported table holds every metric and exactly the rows of the cycles matching the conditions in force'
+    GMC = 'emd.cycles.Cycles.get_matching_cycles'
+    bad = None
+    n = 0
+    for e in exits:
+        if e.kind != 'return':
+            continue
+        subset = conds_given = None
+        for cd, tr, ln in e.state.conds:
+            if cd == S('subset'):
+                subset = tr
+            r = _is_none_test(cd, S('conditions'))
+            if r is not None:
+                conds_given = (not r) == tr
+        v = e.value
+        n += 1
+        frames = [t for t in subterms(v) if (t[0] == 'call' and t[1].startswith('pandas.DataFrame')) or
+                  (t[0] == 'call' and t[1] == 'pandas.DataFrame')]
+        if not frames or not any(_self_attr('metrics') in set(subterms(f)) for f in frames):
+            bad = (e, 'the table is not built from the metric store: %s' % show(v)[:80])
+            break
+        gm = [t for t in subterms(v) if t[0] == 'call' and t[1] == GMC]
+        if subset is None or conds_given is None:
+            ctx.undecided(rid, fi, c, 'a path is not selected by subset / conditions')
+            return
+        stored_none = _cond_truth(e, lambda cd: _is_none_test(cd, _self_attr('mask_conditions')))
+        want = None
+        if conds_given:
+            want = S('conditions')
+        elif subset and stored_none is not True:
+            want = _self_attr('mask_conditions')
+        if want is None:
+            if gm:
+                bad = (e, 'rows are filtered although no conditions are in force (subset=%s)' % subset)
+                break
+            continue
+        if not gm:
+            bad = (e, 'conditions are in force (%s) but no row is removed' % show(want))
+            break
+        kw = dict(gm[0][3])
+        if kw.get('conditions') != want:
+            bad = (e, 'rows are selected with %s instead of %s' % (show(kw.get('conditions', NONE))[:40], show(want)))
+            break
+        # polarity: rows dropped where the match is false / rows kept where it is true
+        M = gm[0]
+        neg_forms = [('cmp', '==', M, C(False)), ('un', '~', M), ('un', 'not', M), ('call', 'numpy.logical_not', (M,), ()),
+                     ('call', 'numpy.invert', (M,), ()), ('cmp', '!=', M, C(True))]
+        drops = [t for t in subterms(v) if t[0] == 'meth' and t[1] == 'drop']
+        if drops:
+            arg = drops[0][3][0] if drops[0][3] else dict(drops[0][4]).get('index', dict(drops[0][4]).get('labels', NONE))
+            negs = [f for f in neg_forms if f in set(subterms(arg))]
+            if not negs:
+                bad = (e, 'the rows dropped are those where the cycle MATCHES the conditions (%s)' % show(arg)[:70])
+                break
+        else:
+            # kept-rows forms: d[M], d.loc[M], d.iloc[np.where(M)[0]]
+            keeps = [t for t in subterms(v) if t[0] == 'sub' and M in set(subterms(t[2]))]
+            if not keeps:
+                ctx.undecided(rid, fi, c, 'row selection %s' % show(v)[:80])
+                return
+            if any(f in set(subterms(keeps[0][2])) for f in neg_forms):
+                bad = (e, 'the rows kept are those where the cycle does NOT match the conditions')
+                break
+    if bad:
+        ctx.violation(rid, fi, c, bad[1], node=bad[0].node, path=trace_tail(bad[0].state, 6))
+    elif n < 3:
+        ctx.undecided(rid, fi, c, '%d returning paths' % n)
+    else:
+        ctx.passed(rid, fi, c, '%d returning paths' % n)
